@@ -16,11 +16,12 @@ a scheduler choice (`recvWake sid true`), time itself is not modelled.
 Ghost fields (`arrived`, `accepted`, `out`, `gap`, `lateSync`, `lateAsync`, `dead`, `eof`) record the history the theorems talk about;
 no modelled decision reads them.
 
-Modelled as REPAIRED (fixes/F15-…, fixes/F15b-…): the `onData` handler drops every chunk once `overflow` is set, and
-`setReadMode(…, Async)` takes the ordered-flush path from `Disabled` as well as from `Sync`.
+Modelled as REPAIRED (fixes/F15-…, fixes/F15b-…, fixes/FC03a-…): the `onData` handler drops every chunk once `overflow` is set,
+`setReadMode(…, Async)` takes the ordered-flush path from `Disabled` as well as from `Sync`, and `hasData` is computed from the
+buffer after the append (a zero-length chunk — legal input, UdpEngine delivers empty datagrams — cannot mark an empty buffer readable).
 
 Environment assumptions are *not* built into `step`; they are the decidable predicate `ok` (see `Disciplined`):
-the engine delivers no data / second close for a closed session and no empty chunk (C02's contract), and one application
+the engine delivers no data / second close for a closed session (C02's contract; EMPTY chunks are legal arrivals), and one application
 thread drives a session's blocking calls (the property's quantifier: "an application thread parked in receive or flushing
 a mode switch") — no `receiveSync` overlaps a `setReadMode(…, Async)` of the same session.
 -/
@@ -187,7 +188,7 @@ def ioDataS (cfg : Cfg) (sh : Bool) (x : Sess) (chunk : Bytes) : Sess × DataAct
         (wake { x with buf := some { b with overflow := true }, arrived := x.arrived ++ chunk, gap := true } cfg.notifyOnOverflow,
          .dropped)
       else
-        (wake { x with buf := some { b with data := b.data ++ chunk, hasData := true },
+        (wake { x with buf := some { b with data := b.data ++ chunk, hasData := !(b.data ++ chunk).isEmpty },
                        arrived := x.arrived ++ chunk, accepted := x.accepted ++ chunk,
                        lateSync := x.lateSync || x.gap } cfg.notifyOnData,
          .buffered)
@@ -307,7 +308,7 @@ def run (cfg : Cfg) (s : State) : List Step → State × List Ev
 
 /-- `ok s st`: step `st` respects the engine contract and the one-application-thread-per-session contract in state `s`. -/
 def ok (s : State) : Step → Bool
-  | .ioData sid chunk => !(s.sess sid).dead && !chunk.isEmpty
+  | .ioData sid _ => !(s.sess sid).dead
   | .ioClose sid => !(s.sess sid).dead
   | .recvEnter sid _ => (s.sess sid).flush.isNone
   | .setMode sid m => (s.sess sid).flush.isNone && (!flushPath (s.sess sid) m || (s.sess sid).parked.isNone)
